@@ -1227,11 +1227,12 @@ impl<'a> DocEval<'a> {
           return Err("no function applies (undocumented case)".into());
         }
         let mut base = base;
-        if base.abs() < 1e-6 {
-          if self.plan.quirks == Quirks::default() {
+        if self.plan.quirks == Quirks::default() {
+          if base.abs() < 1e-6 {
             return Err("zero base score under function_score (undocumented case)".into());
           }
-          // classification models only: the engine substitutes 1.0 for a zero base score
+        } else if (base as f32).abs() <= f32::EPSILON {
+          // classification models only: the engine substitutes 1.0 for a (nearly) zero base score
           base = 1.0;
         }
         let fs = match score_mode.as_str() {
@@ -1703,6 +1704,9 @@ pub struct TopkDiff {
   /// the list only omits documents whose exhaustive score is higher (every returned hit is a
   /// correctly scored member of the exhaustive list, in non-increasing order)
   pub only_omits_better: bool,
+  /// weaker: every returned hit is a correctly scored member of the exhaustive list, in order, and the
+  /// difference is that qualifying documents (better OR tied) are missing
+  pub only_omits: bool,
 }
 
 /// `full`: exhaustive result (every match, engine order). `got`: the list under test, which must be an
@@ -1723,7 +1727,7 @@ pub fn check_topk(
   let mut scores_ok = true;
   for (id, s) in got.iter() {
     if !seen.insert(id.as_str()) {
-      return Err(TopkDiff { kind: "duplicate-hit".into(), detail: json!({"id": id}), only_omits_better: false });
+      return Err(TopkDiff { kind: "duplicate-hit".into(), detail: json!({"id": id}), only_omits_better: false, only_omits: false });
     }
     match fpos.get(id.as_str()) {
       None => all_known = false,
@@ -1743,7 +1747,7 @@ pub fn check_topk(
   let benign = all_known && scores_ok && sorted;
   if !all_known {
     let unknown: Vec<&String> = got.iter().filter(|(id, _)| !fpos.contains_key(id.as_str())).map(|(id, _)| id).collect();
-    return Err(TopkDiff { kind: "hit-not-in-exhaustive-result".into(), detail: json!({"ids": unknown}), only_omits_better: false });
+    return Err(TopkDiff { kind: "hit-not-in-exhaustive-result".into(), detail: json!({"ids": unknown}), only_omits_better: false, only_omits: false });
   }
   if !scores_ok {
     let bad: Vec<Value> = got
@@ -1752,10 +1756,10 @@ pub fn check_topk(
       .take(5)
       .map(|(id, s)| json!({"id": id, "score": s, "exhaustive_score": full[fpos[id.as_str()]].1}))
       .collect();
-    return Err(TopkDiff { kind: "score-differs-from-exhaustive".into(), detail: json!(bad), only_omits_better: false });
+    return Err(TopkDiff { kind: "score-differs-from-exhaustive".into(), detail: json!(bad), only_omits_better: false, only_omits: false });
   }
   if !sorted {
-    return Err(TopkDiff { kind: "not-sorted-by-score".into(), detail: json!(got.iter().take(10).collect::<Vec<_>>()), only_omits_better: false });
+    return Err(TopkDiff { kind: "not-sorted-by-score".into(), detail: json!(got.iter().take(10).collect::<Vec<_>>()), only_omits_better: false, only_omits: false });
   }
   if got.len() != expect_len {
     // fewer hits than available: the missing ones are omissions
@@ -1765,6 +1769,7 @@ pub fn check_topk(
       kind: if got.len() < expect_len { "too-few-hits".into() } else { "too-many-hits".into() },
       detail: json!({"got": got.len(), "expected": expect_len, "omitted_better": better}),
       only_omits_better: benign && got.len() < expect_len,
+      only_omits: benign && got.len() < expect_len,
     });
   }
   for i in 0..expect_len {
@@ -1780,6 +1785,7 @@ pub fn check_topk(
         kind: "tie-not-resolved-by-segment-doc-order".into(),
         detail: json!({"position": i, "got": got[i], "expected": full[i], "loc_got": loc.get(&got[i].0).map(|l| [l.0, l.1]), "loc_expected": loc.get(&full[i].0).map(|l| [l.0, l.1])}),
         only_omits_better: false,
+        only_omits: benign && !seen.contains(full[i].0.as_str()),
       });
     }
     if !approx(gs, es, rel) {
@@ -1795,6 +1801,7 @@ pub fn check_topk(
         kind: if n_om > 0 { "omits-better-documents".into() } else { "order-differs".into() },
         detail: json!({"position": i, "got": got[i], "expected": full[i], "omitted_better": omitted, "lowest_returned": min_got}),
         only_omits_better: benign && n_om > 0,
+        only_omits: benign && n_om > 0,
       });
     }
   }
@@ -1807,6 +1814,7 @@ pub fn check_topk(
             kind: "tie-order".into(),
             detail: json!({"first": w[0], "second": w[1], "loc_first": [a.0, a.1], "loc_second": [b.0, b.1]}),
             only_omits_better: false,
+            only_omits: false,
           });
         }
       }
